@@ -55,6 +55,9 @@ def tasks(tier):
         else:
             add(f"typeorder/mirror[{k1},{k2}]/{'relative' if both else 'outside'}", m.t_mirror(k1, k2, "relative" if both else "outside", unfold=unfold))
     add("FuncDependentType.__lt__/wildcards", m.t_funcdep_lt)
+    for a in m.METAMC + m.DEP:  # SAME through the `t1 == t2` shortcut only for types with the same meaning
+        for b in m.C12_KINDS:
+            add(f"eq/sound[{a},{b}]", m.t_eq_sound(a, b))
     add("typeorder/union_above_members/plain_member", m.t_member_clause("union", NOHOOK, "union_above_members"))
     add("typeorder/union_above_members/hooked_member", m.t_member_clause("union", m.TROUBLE, "union_above_members"))
     add("typeorder/intersection_below_members/plain_member", m.t_member_clause("inter", NOHOOK, "intersection_below_members"))
